@@ -1,7 +1,14 @@
 /-
 Model of `reuse.extract.filter_ignore_block` (src/reuse/extract.py).
-The Python function is recursive on a strictly shorter suffix; here the
-recursion is well-founded on the text length (termination is an obligation).
+The Python function was recursive on a strictly shorter suffix (one call per
+block: ~1000 blocks in a row ended in RecursionError, fixes/ignore-blocks-iterative.diff);
+it now walks through the text with `str.find(marker, position)`.  This definition keeps
+the shape of the recursion — the same function of the text: both branches of
+`ignoreEnd > i` look for the first end marker behind the start marker, which is what
+the loop does (the markers cannot overlap: C12's marker facts), and C12's scanner
+theorem identifies it with the left-to-right two-state scanner.  Every stream of C12
+(exhaustive token sequences, chains of up to 5000 blocks) compares it with the code.
+Here the recursion is well-founded on the text length (termination is an obligation).
 `Option Nat` is Python's `None`/index; the tests are `is None` tests.
 -/
 import ReuseVerif.Py.Str
